@@ -9,6 +9,7 @@ import (
 	"go/types"
 	"strings"
 
+	"golang.org/x/tools/go/packages"
 	"golang.org/x/tools/go/ssa"
 )
 
@@ -58,6 +59,7 @@ type Program struct {
 	fset     *token.FileSet
 	stubFns  map[string]*ssa.Function // mangled callee name -> harness stub
 	repoPath string
+	gopkg    *packages.Package
 }
 
 type Interp struct {
@@ -94,6 +96,8 @@ type Interp struct {
 	threads  []*Thread
 	cur      *Thread
 	preempts int
+	frees    int
+	maxFree  int
 	maxPreempt int
 	raceOn   bool
 	mutexes  map[*Object]map[int]*mutexState
